@@ -23,7 +23,7 @@ def plan(tier: str, seed: int) -> Plan:
     items = [(oracle.query_text(q), s) for q, s in cat.CORE_SELECTOR_QUERIES] + EXTRA
     if thorough:
         sp = ["arr", "obj2", "nest1", "nest2", "nest3", "deep", "numkeys", "objarr"]
-        items += [(oracle.query_text(q), rng.choice(sp)) for q in cat.selector_queries(3, rng, 80, 40)]
+        items += [(oracle.query_text(q), rng.choice(sp)) for q in cat.selector_queries(3, rng, 250, 120)]
     else:
         items = items[::2] + EXTRA[:8]
     seen = set()
